@@ -61,16 +61,29 @@ func FromAttestation(at *spb.Attestation) ([]byte, error) {
 	return nil, ErrNotInExtras
 }
 
-// UnmarshalCertTable parses an SEV-SNP certificate table from untrusted bytes. go-sev-guest's
-// parser adds an entry's 32-bit offset and length without an overflow check and then slices out of
-// range, so a parser panic is reported as a parse error.
-func UnmarshalCertTable(table []byte) (t *abi.CertTable, err error) {
-	defer func() {
-		if r := recover(); r != nil {
-			t, err = nil, fmt.Errorf("malformed certificate table: %v", r)
+// checkCertTableRanges rejects a certificate table with an entry whose byte range lies outside
+// the table. go-sev-guest's parser adds an entry's 32-bit offset and length without an overflow
+// check, then allocates the declared length and slices out of range.
+func checkCertTableRanges(table []byte) error {
+	entries, err := abi.ParseSnpCertTableHeader(table)
+	if err != nil {
+		return err
+	}
+	for i, entry := range entries {
+		if uint64(entry.Offset)+uint64(entry.Length) > uint64(len(table)) {
+			return fmt.Errorf("cert table entry %d specifies a byte range outside the certificate data block (size %d): offset=%d, length=%d",
+				i, len(table), entry.Offset, entry.Length)
 		}
-	}()
-	t = new(abi.CertTable)
+	}
+	return nil
+}
+
+// UnmarshalCertTable parses an SEV-SNP certificate table from untrusted bytes.
+func UnmarshalCertTable(table []byte) (*abi.CertTable, error) {
+	if err := checkCertTableRanges(table); err != nil {
+		return nil, err
+	}
+	t := new(abi.CertTable)
 	if err := t.Unmarshal(table); err != nil {
 		return nil, err
 	}
@@ -78,13 +91,13 @@ func UnmarshalCertTable(table []byte) (t *abi.CertTable, err error) {
 }
 
 // ReportCertsToProto parses a raw attestation report followed by its certificate table from
-// untrusted bytes, reporting a parser panic as a parse error (see UnmarshalCertTable).
-func ReportCertsToProto(data []byte) (at *spb.Attestation, err error) {
-	defer func() {
-		if r := recover(); r != nil {
-			at, err = nil, fmt.Errorf("malformed report or certificate table: %v", r)
+// untrusted bytes.
+func ReportCertsToProto(data []byte) (*spb.Attestation, error) {
+	if len(data) > abi.ReportSize {
+		if err := checkCertTableRanges(data[abi.ReportSize:]); err != nil {
+			return nil, err
 		}
-	}()
+	}
 	return abi.ReportCertsToProto(data)
 }
 
